@@ -8,6 +8,7 @@ import (
 	"encoding/json"
 	"fmt"
 	"math"
+	"reflect"
 	"strconv"
 	"strings"
 
@@ -163,6 +164,12 @@ func (o *SOp) Coq() string {
 			s = fmt.Sprintf("IMax %d %s %s", o.C, o.A.Coq(), o.B.Coq())
 		case "Abs":
 			s = fmt.Sprintf("IAbs %d %s", o.C, o.A.Coq())
+		case "ABS":
+			s = fmt.Sprintf("IABSc %d %s", o.C, o.A.Coq())
+		case "LogAdd":
+			s = fmt.Sprintf("ILogAdd %d %s %s %d", o.C, o.A.Coq(), o.B.Coq(), scratchT)
+		case "LogSub":
+			s = fmt.Sprintf("ILogSub %d %s %s %d", o.C, o.A.Coq(), o.B.Coq(), scratchT)
 		case "Vmean":
 			s = fmt.Sprintf("IVmean %d %s", o.C, opdList(o.Xs))
 		case "VdotV":
@@ -269,9 +276,14 @@ type sworld struct {
 	vecs []ad.Vector
 	ids  [][]int
 	last []RegSnap
+	// slice identities (round 3): address of a backing array -> id (1, 2, ... by first appearance); every
+	// array ever seen is pinned so that the garbage collector can never hand the same address out twice
+	ptr     map[uintptr]int
+	pin     []interface{}
+	lastIds [][]int
 }
 
-func newSWorld() *sworld { return &sworld{id: map[ad.MagicScalar]int{}} }
+func newSWorld() *sworld { return &sworld{id: map[ad.MagicScalar]int{}, ptr: map[uintptr]int{}} }
 
 func elemsOf(v ad.Vector) []ad.MagicScalar {
 	switch x := v.(type) {
@@ -408,6 +420,9 @@ func (w *sworld) exec(o *SOp) (nv ad.Vector, panicked bool) {
 		return v.AppendVector(w.vecs[o.U]), false
 	case "Vec2":
 		r, a, b := w.vecs[o.R], w.vecs[o.T], w.vecs[o.U]
+		if o.Var == 1 && typedVec2(o.Op, r, a, b) {
+			return nil, false
+		}
 		switch o.Op {
 		case "Add":
 			r.VaddV(a, b)
@@ -431,12 +446,24 @@ func (w *sworld) exec(o *SOp) (nv ad.Vector, panicked bool) {
 			r.VdivS(a, b)
 		}
 	case "VSet":
+		if o.Var == 1 && typedVSet(w.vecs[o.R], w.vecs[o.T]) {
+			return nil, false
+		}
 		w.vecs[o.R].Set(w.vecs[o.T])
 	case "VReset":
 		w.vecs[o.R].Reset()
 	case "Ins":
 		c := w.regs[o.C]
+		if o.Var == 1 && w.execTyped(o) {
+			return nil, false
+		}
 		switch o.Ins {
+		case "ABS": // no generic spelling: fall back to the typed call on a clone of an immediate operand
+			w.execTyped(o)
+		case "LogAdd":
+			c.LogAdd(w.opd(o.A), w.opd(o.B), w.freshT(c))
+		case "LogSub":
+			c.LogSub(w.opd(o.A), w.opd(o.B), w.freshT(c))
 		case "Add":
 			c.Add(w.opd(o.A), w.opd(o.B))
 		case "Sub":
@@ -499,12 +526,15 @@ type SObs struct {
 	Kind int
 	Regs map[int]RegSnap
 	Vecs map[int][]int
+	Ids  map[int][]int // registers whose slice identities are new or changed: [Derivative, Hessian, Hessian[0], ...]
+	// diagnosis only (raw JSON): the individual SLOTS that changed, "reg.v", "reg.d[i]", "reg.h[i][j]", "reg.shape"
+	Slots []string
 }
 
 // step: execute and report what changed
 func (w *sworld) step(o *SOp) SObs {
 	nv, p := w.exec(o)
-	ob := SObs{Op: *o, Regs: map[int]RegSnap{}, Vecs: map[int][]int{}}
+	ob := SObs{Op: *o, Regs: map[int]RegSnap{}, Vecs: map[int][]int{}, Ids: map[int][]int{}}
 	if p {
 		ob.Kind = 1
 		return ob
@@ -529,11 +559,276 @@ func (w *sworld) step(o *SOp) SObs {
 			w.last = append(w.last, s)
 			ob.Regs[k] = s
 		} else if !snapEq(s, w.last[k]) {
+			ob.Slots = append(ob.Slots, slotDiff(k, w.last[k], s)...)
 			w.last[k] = s
 			ob.Regs[k] = s
 		}
 	}
+	for k, r := range w.regs {
+		ids := w.sliceIds(r)
+		if k >= len(w.lastIds) {
+			w.lastIds = append(w.lastIds, ids)
+			ob.Ids[k] = ids
+		} else if !intsEq(ids, w.lastIds[k]) {
+			w.lastIds[k] = ids
+			ob.Ids[k] = ids
+		}
+	}
 	return ob
+}
+
+// idOf: identity of the backing array of a slice value (0: nil or zero capacity)
+func (w *sworld) idOf(slice interface{}) int {
+	v := reflect.ValueOf(slice)
+	if v.Kind() != reflect.Slice || v.IsNil() || v.Cap() == 0 {
+		return 0
+	}
+	p := v.Pointer()
+	if k, ok := w.ptr[p]; ok {
+		return k
+	}
+	k := len(w.ptr) + 1
+	w.ptr[p] = k
+	w.pin = append(w.pin, slice)
+	return k
+}
+
+// sliceIds: [Derivative, Hessian (row headers), Hessian[0], ..., Hessian[n-1]] of a magic scalar
+func (w *sworld) sliceIds(s ad.ConstScalar) []int {
+	switch v := s.(type) {
+	case *ad.Real64:
+		r := []int{w.idOf(v.Derivative), w.idOf(v.Hessian)}
+		for _, row := range v.Hessian {
+			r = append(r, w.idOf(row))
+		}
+		return r
+	case *ad.Real32:
+		r := []int{w.idOf(v.Derivative), w.idOf(v.Hessian)}
+		for _, row := range v.Hessian {
+			r = append(r, w.idOf(row))
+		}
+		return r
+	}
+	return []int{0, 0}
+}
+
+// sharing: the first pair of live registers that share a backing array ("" if none)
+func (w *sworld) sharing() string {
+	owner := map[int]int{}
+	slot := map[int]int{}
+	for k := range w.lastIds {
+		for j, id := range w.lastIds[k] {
+			if id == 0 {
+				continue
+			}
+			if q, ok := owner[id]; ok {
+				return fmt.Sprintf("sharing: registers %d (slice %s) and %d (slice %s) have the same backing array", q, sliceName(slot[id]), k, sliceName(j))
+			}
+			owner[id] = k
+			slot[id] = j
+		}
+	}
+	return ""
+}
+func sliceName(j int) string {
+	switch j {
+	case 0:
+		return "Derivative"
+	case 1:
+		return "Hessian"
+	}
+	return fmt.Sprintf("Hessian[%d]", j-2)
+}
+
+// slotDiff: the individual slots in which two snapshots of register k differ
+func slotDiff(k int, a, b RegSnap) []string {
+	var r []string
+	if !feq(a.Val, b.Val) {
+		r = append(r, fmt.Sprintf("%d.v", k))
+	}
+	if a.Order != b.Order || a.N != b.N || len(a.D) != len(b.D) || len(a.H) != len(b.H) {
+		return append(r, fmt.Sprintf("%d.shape", k))
+	}
+	for i := range a.D {
+		if !feq(a.D[i], b.D[i]) {
+			r = append(r, fmt.Sprintf("%d.d[%d]", k, i))
+		}
+	}
+	for i := range a.H {
+		if len(a.H[i]) != len(b.H[i]) {
+			return append(r, fmt.Sprintf("%d.shape", k))
+		}
+		for j := range a.H[i] {
+			if !feq(a.H[i][j], b.H[i][j]) {
+				r = append(r, fmt.Sprintf("%d.h[%d][%d]", k, i, j))
+			}
+		}
+	}
+	return r
+}
+
+// freshT: the temporary handed to LogAdd / LogSub (untouched by the operand-copying short cuts)
+func (w *sworld) freshT(c ad.MagicScalar) ad.Scalar {
+	if _, ok := c.(*ad.Real32); ok {
+		return ad.NewReal32(0)
+	}
+	return ad.NewReal64(0)
+}
+
+// execTyped: the concrete twin of a scalar instruction (SET, MIN, MAX, ABS, LOGADD, LOGSUB, ADD, SUB, MUL, DIV, NEG);
+// false when receiver and operands are not registers of one concrete type (the caller then takes the generic method)
+func (w *sworld) execTyped(o *SOp) bool {
+	need := 0
+	switch o.Ins {
+	case "Set", "Abs", "ABS", "Neg":
+		need = 1
+	case "Add", "Sub", "Mul", "Div", "Min", "Max", "LogAdd", "LogSub":
+		need = 2
+	default:
+		return false
+	}
+	if o.A.Reg < 0 || need == 2 && o.B.Reg < 0 {
+		if o.Ins == "ABS" {
+			panic("ABS needs a register operand")
+		}
+		return false
+	}
+	switch c := w.regs[o.C].(type) {
+	case *ad.Real64:
+		a, ok := w.regs[o.A.Reg].(*ad.Real64)
+		if !ok {
+			if o.Ins == "ABS" {
+				panic("ABS: mixed types")
+			}
+			return false
+		}
+		var b *ad.Real64
+		if need == 2 {
+			if b, ok = w.regs[o.B.Reg].(*ad.Real64); !ok {
+				return false
+			}
+		}
+		switch o.Ins {
+		case "Set":
+			c.SET(a)
+		case "Abs", "ABS":
+			c.ABS(a)
+		case "Neg":
+			c.NEG(a)
+		case "Add":
+			c.ADD(a, b)
+		case "Sub":
+			c.SUB(a, b)
+		case "Mul":
+			c.MUL(a, b)
+		case "Div":
+			c.DIV(a, b)
+		case "Min":
+			c.MIN(a, b)
+		case "Max":
+			c.MAX(a, b)
+		case "LogAdd":
+			c.LOGADD(a, b, ad.NewReal64(0))
+		case "LogSub":
+			c.LOGSUB(a, b, ad.NewReal64(0))
+		}
+		return true
+	case *ad.Real32:
+		a, ok := w.regs[o.A.Reg].(*ad.Real32)
+		if !ok {
+			if o.Ins == "ABS" {
+				panic("ABS: mixed types")
+			}
+			return false
+		}
+		var b *ad.Real32
+		if need == 2 {
+			if b, ok = w.regs[o.B.Reg].(*ad.Real32); !ok {
+				return false
+			}
+		}
+		switch o.Ins {
+		case "Set":
+			c.SET(a)
+		case "Abs", "ABS":
+			c.ABS(a)
+		case "Neg":
+			c.NEG(a)
+		case "Add":
+			c.ADD(a, b)
+		case "Sub":
+			c.SUB(a, b)
+		case "Mul":
+			c.MUL(a, b)
+		case "Div":
+			c.DIV(a, b)
+		case "Min":
+			c.MIN(a, b)
+		case "Max":
+			c.MAX(a, b)
+		case "LogAdd":
+			c.LOGADD(a, b, ad.NewReal32(0))
+		case "LogSub":
+			c.LOGSUB(a, b, ad.NewReal32(0))
+		}
+		return true
+	}
+	return false
+}
+
+func typedVSet(r, a ad.Vector) bool {
+	switch x := r.(type) {
+	case ad.DenseReal64Vector:
+		if y, ok := a.(ad.DenseReal64Vector); ok {
+			x.SET(y)
+			return true
+		}
+	case ad.DenseReal32Vector:
+		if y, ok := a.(ad.DenseReal32Vector); ok {
+			x.SET(y)
+			return true
+		}
+	}
+	return false
+}
+func typedVec2(op string, r, a, b ad.Vector) bool {
+	switch x := r.(type) {
+	case ad.DenseReal64Vector:
+		y, ok1 := a.(ad.DenseReal64Vector)
+		z, ok2 := b.(ad.DenseReal64Vector)
+		if !ok1 || !ok2 {
+			return false
+		}
+		switch op {
+		case "Add":
+			x.VADDV(y, z)
+		case "Sub":
+			x.VSUBV(y, z)
+		case "Mul":
+			x.VMULV(y, z)
+		case "Div":
+			x.VDIVV(y, z)
+		}
+		return true
+	case ad.DenseReal32Vector:
+		y, ok1 := a.(ad.DenseReal32Vector)
+		z, ok2 := b.(ad.DenseReal32Vector)
+		if !ok1 || !ok2 {
+			return false
+		}
+		switch op {
+		case "Add":
+			x.VADDV(y, z)
+		case "Sub":
+			x.VSUBV(y, z)
+		case "Mul":
+			x.VMULV(y, z)
+		case "Div":
+			x.VDIVV(y, z)
+		}
+		return true
+	}
+	return false
 }
 func intsEq(a, b []int) bool {
 	if len(a) != len(b) {
@@ -555,7 +850,11 @@ func (ob *SObs) Coq() string {
 	for _, t := range sortedKeysV(ob.Vecs) {
 		vs = append(vs, fmt.Sprintf("(%d%%nat, %s)", t, natList(ob.Vecs[t])))
 	}
-	return fmt.Sprintf("mkSO %s %d %s %s", ob.Op.Coq(), ob.Kind, List(rs), List(vs))
+	var is []string
+	for _, k := range sortedKeysV(ob.Ids) {
+		is = append(is, fmt.Sprintf("(%d%%nat, %s)", k, natList(ob.Ids[k])))
+	}
+	return fmt.Sprintf("mkSO2 (mkSO %s %d %s %s) %s", ob.Op.Coq(), ob.Kind, List(rs), List(vs), List(is))
 }
 func natList(xs []int) string {
 	s := make([]string, len(xs))
@@ -646,6 +945,34 @@ func (g *sgen) opd() Opd {
 	return Opd{Reg: g.anyReg()}
 }
 
+// sameKindReg: a register of the concrete type of register c (-1 if none after a few draws)
+func (g *sgen) sameKindReg(c int) int {
+	for k := 0; k < 20; k++ {
+		a := g.anyReg()
+		if g.w.last[a].Kind == g.w.last[c].Kind {
+			return a
+		}
+	}
+	return -1
+}
+
+// infOpd: an operand whose value is -Inf: a register of c's type, or (generic spelling only) an immediate
+func (g *sgen) infOpd(c int, typed bool) *Opd {
+	var cand []int
+	for k := range g.w.last {
+		if math.IsInf(g.w.last[k].Val, -1) && g.w.last[k].Kind == g.w.last[c].Kind && k != c {
+			cand = append(cand, k)
+		}
+	}
+	if len(cand) > 0 && (typed || g.r.Intn(3) != 0) {
+		return &Opd{Reg: cand[g.r.Intn(len(cand))]}
+	}
+	if !typed && len(cand) == 0 && g.r.Intn(2) == 0 {
+		return &Opd{Reg: -1, Imm: HF(math.Inf(-1))}
+	}
+	return nil
+}
+
 // next operation; focus: handle pair (src, cpy) whose elements are preferred as receivers
 func (g *sgen) next(focus []int) *SOp {
 	r := g.r
@@ -710,10 +1037,33 @@ func (g *sgen) next(focus []int) *SOp {
 				continue
 			}
 			c := pickRecvReg()
-			names := []string{"Add", "Sub", "Mul", "Div", "Neg", "Set", "Reset", "SetF", "SetVar", "Min", "Max", "Abs", "Vmean", "VdotV", "Mtrace"}
-			nm := names[r.Pick([]int{10, 8, 10, 5, 4, 8, 3, 8, 10, 3, 3, 3, 2, 3, 2})]
-			o := &SOp{K: "Ins", Ins: nm, C: c}
+			names := []string{"Add", "Sub", "Mul", "Div", "Neg", "Set", "Reset", "SetF", "SetVar", "Min", "Max", "Abs", "Vmean", "VdotV", "Mtrace", "ABS", "LogAdd", "LogSub"}
+			nm := names[r.Pick([]int{10, 8, 10, 5, 4, 10, 3, 8, 8, 4, 4, 3, 2, 3, 2, 3, 3, 3})]
+			o := &SOp{K: "Ins", Ins: nm, C: c, Var: r.Intn(2)}
 			switch nm {
+			case "ABS":
+				a := g.sameKindReg(c)
+				if a < 0 {
+					continue
+				}
+				o.A = Opd{Reg: a}
+			case "LogAdd", "LogSub":
+				// only the operand-copying short cuts (no libm call): one side is -Inf, the other is not NaN
+				inf := g.infOpd(c, o.Var == 1)
+				if inf == nil {
+					// make one for later: a register outside the focus gets the value -Inf (derivatives stay allocated)
+					q := g.anyReg()
+					return &SOp{K: "Ins", Ins: "SetF", C: q, V: HF(math.Inf(-1))}
+				}
+				y := g.sameKindReg(c)
+				if y < 0 || math.IsNaN(w.last[y].Val) {
+					continue
+				}
+				if nm == "LogSub" || r.Intn(2) == 0 {
+					o.A, o.B = Opd{Reg: y}, *inf
+				} else {
+					o.A, o.B = *inf, Opd{Reg: y}
+				}
 			case "Add", "Sub", "Mul", "Div", "Min", "Max":
 				o.A, o.B = g.opd(), g.opd()
 				if r.Intn(5) == 0 {
@@ -763,7 +1113,7 @@ func (g *sgen) next(focus []int) *SOp {
 			if a < 0 || b < 0 {
 				continue
 			}
-			return &SOp{K: "Vec2", Op: []string{"Add", "Sub", "Mul", "Div"}[r.Intn(4)], R: rv, T: a, U: b}
+			return &SOp{K: "Vec2", Op: []string{"Add", "Sub", "Mul", "Div"}[r.Intn(4)], R: rv, T: a, U: b, Var: r.Intn(2)}
 		case 7:
 			rv := pickRecvVec()
 			a := g.vecOfLen(len(w.ids[rv]), -1)
@@ -777,14 +1127,22 @@ func (g *sgen) next(focus []int) *SOp {
 			if a < 0 {
 				continue
 			}
-			return &SOp{K: "VSet", R: rv, T: a}
+			return &SOp{K: "VSet", R: rv, T: a, Var: r.Intn(2)}
 		case 9:
 			return &SOp{K: "VReset", R: pickRecvVec()}
 		}
 	}
 }
 
-// a history: a few vectors, a copy of one of them, then >= 20 mutations aimed at either side
+// a history: a few vectors, a copy of one of them, then >= 20 mutations aimed at either side.
+// Round 3: 7 of 10 histories are DIRECTED at second-order storage: all vectors of one concrete type, every element
+// a variable of N = 2..3 at ORDER 2 with non-zero OFF-DIAGONAL Hessian entries (products of different variables)
+// before the copy; the copy is made through every copying entry point in turn (Clone variants, As-conversions,
+// generic Set and typed SET on vectors and on elements, MIN/MAX/ABS/LOGADD/LOGSUB short cuts); the mutations
+// include in-place arithmetic on the copy (z.Mul(z, z) / z.MUL(z, z)).
+var sDirected int
+var typedIns = map[string]bool{"Set": true, "Abs": true, "ABS": true, "Neg": true, "Add": true, "Sub": true, "Mul": true, "Div": true, "Min": true, "Max": true, "LogAdd": true, "LogSub": true}
+
 func genSHistory(r *Rng, nops int) ([]SObs, map[string]int) {
 	w := newSWorld()
 	g := &sgen{r: r, w: w}
@@ -796,6 +1154,11 @@ func genSHistory(r *Rng, nops int) ([]SObs, map[string]int) {
 		hist["S:"+o.K]++
 		if o.K == "Ins" {
 			hist["S:Ins:"+o.Ins]++
+			if o.Var == 1 && typedIns[o.Ins] {
+				hist["S:typed:"+o.Ins]++
+			}
+		} else if o.Var == 1 && (o.K == "VSet" || o.K == "Vec2") {
+			hist["S:typed:"+o.K]++
 		}
 		if ob.Kind == 1 {
 			hist["S:panic"]++
@@ -803,39 +1166,121 @@ func genSHistory(r *Rng, nops int) ([]SObs, map[string]int) {
 		}
 		return true
 	}
-	nv := r.Range(2, 3)
-	for i := 0; i < nv; i++ {
-		n := r.Range(1, 3)
-		if i == 1 {
-			n = len(w.ids[0]) // so that two-operand vector ops find partners
-		}
-		k := K64
-		if r.Intn(5) == 0 {
-			k = K32
-		}
+	directed := r.Intn(10) < 7
+	newVec := func(k, n int) bool {
 		vals := make([]HF, n)
 		for j := range vals {
 			v := genVal(r)
+			if directed && (math.IsNaN(v) || math.IsInf(v, 0)) {
+				v = 1.5
+			}
 			if k == K32 {
 				v = f32(v)
 			}
 			vals[j] = HF(v)
 		}
-		do(&SOp{K: "New", Kind: k, Vals: vals})
+		return do(&SOp{K: "New", Kind: k, Vals: vals})
 	}
-	// give some elements derivatives before copying
-	for i := 0; i < r.Range(1, 4); i++ {
-		c := g.anyReg()
-		n := r.Range(1, 2)
-		if !do(&SOp{K: "Ins", Ins: "SetVar", C: c, I: r.Intn(n), N: n, O: r.Range(1, 2)}) {
+	if !directed {
+		nv := r.Range(2, 3)
+		for i := 0; i < nv; i++ {
+			n := r.Range(1, 3)
+			if i == 1 {
+				n = len(w.ids[0]) // so that two-operand vector ops find partners
+			}
+			k := K64
+			if r.Intn(5) == 0 {
+				k = K32
+			}
+			newVec(k, n)
+		}
+		// give some elements derivatives before copying
+		for i := 0; i < r.Range(1, 4); i++ {
+			c := g.anyReg()
+			n := r.Range(1, 2)
+			if !do(&SOp{K: "Ins", Ins: "SetVar", C: c, I: r.Intn(n), N: n, O: r.Range(1, 2)}) {
+				return obs, hist
+			}
+		}
+		src := g.anyVec()
+		if !do(&SOp{K: "Clone", T: src, Var: r.Intn(4)}) {
+			return obs, hist
+		}
+		cpy := len(w.vecs) - 1
+		for i := 0; i < nops; i++ {
+			if !do(g.next([]int{src, cpy})) {
+				break
+			}
+		}
+		return obs, hist
+	}
+	hist["S:directed-order2"]++
+	sDirected++
+	k := K64
+	if sDirected%3 == 0 {
+		k = K32
+	}
+	n := r.Range(1, 3)
+	N := r.Range(2, 3)
+	newVec(k, n)
+	newVec(k, n)
+	for t := 0; t < 2; t++ {
+		for j, c := range w.ids[t] {
+			if !do(&SOp{K: "Ins", Ins: "SetVar", C: c, I: (j + t) % N, N: N, O: 2}) {
+				return obs, hist
+			}
+		}
+	}
+	// x_j := x_j * y_j (different variables: off-diagonal Hessian 1), then x_j := x_j * x_j or + y_j*y_j now and then
+	for j, c := range w.ids[0] {
+		y := w.ids[1][j]
+		if !do(&SOp{K: "Ins", Ins: "Mul", C: c, A: Opd{Reg: c}, B: Opd{Reg: y}, Var: r.Intn(2)}) {
+			return obs, hist
+		}
+		if r.Intn(2) == 0 {
+			if !do(&SOp{K: "Ins", Ins: "Mul", C: c, A: Opd{Reg: c}, B: Opd{Reg: c}, Var: r.Intn(2)}) {
+				return obs, hist
+			}
+		}
+	}
+	src := 0
+	var cpy int
+	mode := sDirected % 8
+	hist[fmt.Sprintf("S:copy-entry:%s", []string{"CloneVector", "Clone", "As-same-type", "CloneScalar-per-element", "As-other-type",
+		"vector Set", "vector SET (typed)", "element SET (typed)"}[mode])]++
+	switch mode {
+	case 0, 1, 2, 3:
+		if !do(&SOp{K: "Clone", T: src, Var: mode}) {
+			return obs, hist
+		}
+		cpy = len(w.vecs) - 1
+	case 4:
+		if !do(&SOp{K: "Conv", Kind: 1 - k, T: src}) {
+			return obs, hist
+		}
+		cpy = len(w.vecs) - 1
+	case 5, 6:
+		newVec(k, n)
+		cpy = len(w.vecs) - 1
+		if !do(&SOp{K: "VSet", R: cpy, T: src, Var: mode - 5}) {
+			return obs, hist
+		}
+	default:
+		newVec(k, n)
+		cpy = len(w.vecs) - 1
+		for j, c := range w.ids[cpy] {
+			if !do(&SOp{K: "Ins", Ins: "Set", C: c, A: Opd{Reg: w.ids[src][j]}, Var: 1}) {
+				return obs, hist
+			}
+		}
+	}
+	// in-place arithmetic on the copy, early
+	if len(w.ids[cpy]) > 0 {
+		z := w.ids[cpy][r.Intn(len(w.ids[cpy]))]
+		if !do(&SOp{K: "Ins", Ins: "Mul", C: z, A: Opd{Reg: z}, B: Opd{Reg: z}, Var: r.Intn(2)}) {
 			return obs, hist
 		}
 	}
-	src := g.anyVec()
-	if !do(&SOp{K: "Clone", T: src, Var: r.Intn(4)}) {
-		return obs, hist
-	}
-	cpy := len(w.vecs) - 1
 	for i := 0; i < nops; i++ {
 		if !do(g.next([]int{src, cpy})) {
 			break
